@@ -83,7 +83,9 @@ func vCheckControlReplies(t *vTransport, e vExpect, client bool, id string) {
 		case 8:
 			closes = append(closes, f)
 		}
-		vAssert(vAnd(f.masked == client, vAnd(f.fin, vNot(vOr(f.rsv1, vOr(f.rsv2, f.rsv3))))), id+".written-control-shape")
+		if f.opcode >= 8 {
+			vAssert(vAnd(f.masked == client, vAnd(f.fin, vNot(vOr(f.rsv1, vOr(f.rsv2, f.rsv3))))), id+".written-control-shape")
+		}
 	}
 	pk := len(pongs) == len(e.pongs)
 	if pk {
